@@ -28,6 +28,29 @@ def envs(tree, vals, c, k):
             for j in range(3)]
 
 
+def detectable_at_first_point(tree, c, vals1, i, k, l, reduce_sum, n):
+    """Would ExecComp's sparsity sampling (inputs moved by 1e-9 relative, 1e-9 absolute for zeros; entries
+    below 1e-25 of the largest are dropped) see the entry d y[k] / d x_i[l] at the first linearization point?
+    Used only to CLASSIFY a lost entry: 'detectable' entries that are nevertheless reported as 0 later are a
+    different failure than entries whose derivative vanishes to high order / sits on a locally constant branch
+    at the sampling point."""
+    def pert(v):
+        v = np.array(v, dtype=float)
+        off = np.where(v == 0.0, 1.0, np.abs(v)) * 1e-9 * 0.5
+        return v + off
+    pv = {nm: pert(v) for nm, v in vals1.items()}
+    try:
+        el = l if (reduce_sum or pv[G.VARS[i]].size > 1) else k
+        d = abs(G.ev(tree, envs(tree, pv, c, el), i, margin=False).d)
+        big = 0.0
+        for j in c['vars']:
+            for kk in range(n):
+                big = max(big, abs(G.ev(tree, envs(tree, pv, c, kk), j, margin=False).d))
+    except Exception:
+        return False
+    return big > 0 and d > 1e-22 * big      # the real threshold is 1e-25 of the largest entry
+
+
 def handle(c):
     tree, cfg = c['tree'], c['config']
     names = [G.VARS[i] for i in c['vars']]
@@ -131,7 +154,15 @@ def handle(c):
                     elif not (abs(got - want) <= 1e-9 * max(1.0, abs(want))):
                         msgs.append(tag + 'd y[%d] / d %s[%d] = %r, exact derivative %r (%s, config %s, %s=%r)' % (
                             k, nm, l, got, want, src, cfg, nm, vals[nm].tolist()))
-                        sig = sig or ('partial' if ip == 0 else 'partial-after-relinearization')
+                        if ip == 0 or not colored or got != 0.0:
+                            sig = sig or 'partial'
+                        elif detectable_at_first_point(tree, c, point_vals(c['points'][0]), i, k, l,
+                                                       reduce_sum, n):
+                            sig = sig or 'coloring-lost-detectable-entry'
+                        else:
+                            sig = sig or 'coloring-sparsity-zero-at-sampling-point'
+                            msgs[-1] += (' [the automatic coloring computed its sparsity at point 1, where this '
+                                         'derivative vanishes to high order or lies on a locally constant branch]')
         res_all.append({'y': [q(float(t)) for t in y], 'J': Jq})
     return {'res': res_all, 'ok': not msgs, 'msg': '; '.join(msgs[:3]), 'sig': sig,
             'kind': '%s:%s%s%s%s%s:pts%d' % (cfg, 'arr' if n > 1 else 'scalar', ':sum' if reduce_sum else '',
